@@ -24,6 +24,7 @@ class Cfg:
     minmax = "strict"    # "strict" | "seed0"
     range_mode = "normal"   # "normal" | "empty" (known finding: bounds evaluated before they are computed)
     dead_elim = False    # Select(f).Count() does not evaluate f (length-preserving projection)
+    c_int_div = False    # alternative semantics: int / int truncates (what C++ does when both operands are ints)
 
 
 CFG = Cfg()
@@ -40,7 +41,16 @@ class Seq:
     def __iter__(self):
         return iter(self._gen())
 
+    def _len_only(self):
+        "Number of elements without evaluating length-preserving projections."
+        if self._same_len_as is not None:
+            return self._same_len_as._len_only()
+        return sum(1 for _ in self)
+
     def Select(self, f):
+        if CFG.dead_elim and _ignores_its_argument(f):
+            # a projection that ignores its element does not need the upstream projections evaluated
+            return Seq(lambda: (f(None) for _ in range(self._len_only())), same_len_as=self)
         return Seq(lambda: (f(x) for x in self), same_len_as=self)
 
     def Where(self, f):
@@ -114,6 +124,20 @@ class Seq:
             if k == i:
                 return v
         raise Fault("index")
+
+
+def _ignores_its_argument(f) -> bool:
+    import dis
+    try:
+        code = f.__code__
+    except AttributeError:
+        return False
+    if code.co_argcount != 1:
+        return False
+    arg = code.co_varnames[0]
+    if arg in code.co_cellvars:
+        return False
+    return not any(i.argval == arg for i in dis.get_instructions(code) if i.opname.startswith("LOAD_FAST") or i.opname == "LOAD_DEREF")
 
 
 def Range(a, b):
@@ -215,7 +239,7 @@ def DeltaR(eta1, phi1, eta2, phi2):
 
 
 def base_env():
-    env = {"_vm_mod": _vm_mod, "Range": Range, "isNonnull": isNonnull, "DeltaR": DeltaR, "abs": abs, "pow": pow}
+    env = {"_vm_mod": _vm_mod, "_vm_div": _vm_div, "Range": Range, "isNonnull": isNonnull, "DeltaR": DeltaR, "abs": abs, "pow": pow}
     for n in dir(math):
         if not n.startswith("_") and callable(getattr(math, n)):
             env[n] = getattr(math, n)
@@ -246,14 +270,25 @@ _compiled = {}
 
 
 class _ModGuard(__import__("ast").NodeTransformer):
-    "a % b is only defined by the property for non-negative operands: route it through a guard"
+    "a % b is only defined by the property for non-negative operands: route it through a guard; a / b through the division hook"
 
     def visit_BinOp(self, n):
         import ast
         self.generic_visit(n)
         if isinstance(n.op, ast.Mod):
             return ast.Call(func=ast.Name("_vm_mod", ast.Load()), args=[n.left, n.right], keywords=[])
+        if isinstance(n.op, ast.Div):
+            return ast.Call(func=ast.Name("_vm_div", ast.Load()), args=[n.left, n.right], keywords=[])
         return n
+
+
+def _vm_div(a, b):
+    if CFG.c_int_div and isinstance(a, int) and isinstance(b, int) and not isinstance(a, bool) and not isinstance(b, bool):
+        if b == 0:
+            raise ZeroDivisionError()
+        q = abs(a) // abs(b)
+        return q if (a >= 0) == (b >= 0) else -q
+    return a / b
 
 
 def _vm_mod(a, b):
@@ -266,7 +301,7 @@ def compile_query(text: str):
     c = _compiled.get(text)
     if c is None:
         import ast
-        if "%" in text:
+        if "%" in text or "/" in text:
             tree = ast.fix_missing_locations(_ModGuard().visit(ast.parse(text, mode="eval")))
             c = compile(tree, "<query>", "eval")
         else:
@@ -277,9 +312,9 @@ def compile_query(text: str):
     return c
 
 
-def evaluate(text: str, ev: Event, lazy=True, minmax="strict", range_mode="normal", extra_env=None, dead_elim=False):
+def evaluate(text: str, ev: Event, lazy=True, minmax="strict", range_mode="normal", extra_env=None, dead_elim=False, c_int_div=False):
     """Returns (outcome, log) with outcome = ("rows", rows) | ("fault", kind) | ("unsupported", why)."""
-    CFG.lazy, CFG.minmax, CFG.range_mode, CFG.dead_elim = lazy, minmax, range_mode, dead_elim
+    CFG.lazy, CFG.minmax, CFG.range_mode, CFG.dead_elim, CFG.c_int_div = lazy, minmax, range_mode, dead_elim, c_int_div
     log: list = []
     env = base_env()
     if extra_env:
@@ -302,7 +337,7 @@ def evaluate(text: str, ev: Event, lazy=True, minmax="strict", range_mode="norma
     except (AttributeError, TypeError, NameError) as e:
         return ("unsupported", f"reference cannot evaluate: {type(e).__name__}: {e}"), log
     finally:
-        CFG.lazy, CFG.minmax, CFG.range_mode, CFG.dead_elim = True, "strict", "normal", False
+        CFG.lazy, CFG.minmax, CFG.range_mode, CFG.dead_elim, CFG.c_int_div = True, "strict", "normal", False, False
 
 
 def evaluate_stable(text: str, ev: Event, **kw):
